@@ -889,3 +889,218 @@ def conversion_roundtrip(P, rep, rule="EXPR.conversion"):
                       "spherical_to_cartesian(cartesian_to_spherical(p)) != p", key=rule + "|roundtrip", witness="any point off the axes")
     else:
         rep.ok(rule, "spherical_to_cartesian(cartesian_to_spherical(x,y,z)) == (x,y,z) identically (first octant representative, r > 0)", S2C.loc, S2C.qn)
+
+
+# ------------------------------------------------------------------------------------------------ C19
+def _numeric_zero(expr, digits=30, trials=5):
+    """expr == 0 at `trials` random points (every free symbol and every uninterpreted application gets a random value)"""
+    import random
+    import mpmath
+    rnd = random.Random(20260930)
+    apps = sorted({a for a in expr.atoms(sp.Function) if a.func.__name__ in ("at",) or isinstance(a.func, sp.core.function.UndefinedFunction)}, key=str)
+    expr = expr.xreplace({a: sp.Symbol("app%d" % i, real=True) for i, a in enumerate(apps)})
+    syms = sorted(expr.free_symbols, key=str)
+    worst = 0
+    for _ in range(trials):
+        vals = {s: sp.Float(rnd.uniform(0.2, 1.3), digits) for s in syms}
+        v = sp.N(expr.xreplace(vals), digits)
+        try:
+            m = abs(complex(v))
+        except Exception:
+            return False, "not numeric: %s" % str(v)[:60]
+        worst = max(worst, m)
+        if m > 10.0 ** (-(digits - 8)):
+            return False, "residual %.3g at %s" % (m, {str(k): round(float(x), 3) for k, x in list(vals.items())[:6]})
+    return True, "residual <= %.1g at %d random points" % (worst, trials)
+
+
+def newton_objective(P, rep, rule="NEWTON.objective"):
+    """what BezierCurve::closest_point_on_curve_segment minimises is the distance to the point it reports"""
+    from .veceval import env_before
+    rep.rule(rule, "BezierCurve::closest_point_on_curve_segment: with p(t) the point stored in the result, the quantity H compared with the best "
+                   "value so far is the squared distance |p(t) - q|^2 (Cartesian) or the haversine of the great-circle distance "
+                   "sin^2(dlat/2) + cos(lat_q) cos(lat_p(t)) sin^2(dlon/2) (spherical) between p(t) and the check point q; the Newton step is "
+                   "H'(t)/|H''(t)| for that same H; every value the line search compares is H at the trial parameter")
+    F = P.func("WorldBuilder::Objects::BezierCurve::closest_point_on_curve_segment")
+    t = sp.Symbol("t", real=True)
+    # the parameter of the curve: the local stored to .parametric_fraction; trial parameters (assigned est - update*line_search) share the symbol
+    est_keys = set()
+    for x in F.walk():
+        if x.get("k") in ("BinaryOperator", "CXXOperatorCallExpr") and x.get("op") == "=" and sc(x["c"][-2]).get("k") == "MemberExpr" \
+                and sc(x["c"][-2]).get("n") == "parametric_fraction" and sc(x["c"][-1]).get("k") == "DeclRefExpr":
+            est_keys.add(sc(x["c"][-1])["r"])
+    if not est_keys:
+        raise AnalysisBroken("%s: parameter local not identified" % F.qn)
+    trial = set()
+    for x in F.walk():
+        if x.get("k") == "VarDecl" and x.get("c") and x.get("t", "").replace("const ", "") == "double":
+            ini = sc(x["c"][0])
+            if ini.get("k") == "BinaryOperator" and ini.get("op") == "-" and any(astq.is_ref_to(sc(ini["c"][0]), e_) for e_ in est_keys):
+                trial.add(x["r"])
+    seed = {e_: t for e_ in est_keys}
+    for k_ in trial:
+        seed[k_] = t
+    # accept sites: if (H < best) with best the local initialised to infinity
+    best = [x["r"] for x in F.walk() if x.get("k") == "VarDecl" and x.get("c") and "infinity" in norm.render(P, x["c"][0])]
+    if len(best) != 1:
+        raise AnalysisBroken("%s: best-so-far local not identified (%d)" % (F.qn, len(best)))
+    best = best[0]
+    sites = []
+    for g in F.walk():
+        if g.get("k") == "IfStmt":
+            c = sc(g["c"][0])
+            if c.get("k") == "BinaryOperator" and c.get("op") in ("<", "<=") and astq.is_ref_to(sc(c["c"][1]), best):
+                sites.append((g, c))
+    rep.floor(rule, len(sites), 2, "accept tests (Cartesian and spherical)")
+
+    def system_of(node):
+        for a in F.ancestors(node):
+            if a.get("k") == "IfStmt" and "cartesian" in norm.render(P, a["c"][0]) and "==" in norm.render(P, a["c"][0]):
+                if any(y is node for y in F.walk(a["c"][1])):
+                    return "cartesian"
+                return "spherical"
+        return None
+
+    def definition(system, pt, q):
+        if system == "cartesian":
+            return (pt[0] - q[0]) ** 2 + (pt[1] - q[1]) ** 2
+        return sp.sin((pt[1] - q[1]) / 2) ** 2 + sp.cos(q[1]) * sp.cos(pt[1]) * sp.sin((pt[0] - q[0]) / 2) ** 2
+    # the check point: the Point<2> parameter (and its reference alias)
+    qk = [p for p in F.params if "Point<2>" in (P.d(p).get("t") or "")]
+    if len(qk) != 1:
+        raise AnalysisBroken("%s: check point parameter not identified" % F.qn)
+    Q = (sp.Symbol("q_lon", real=True), sp.Symbol("q_lat", real=True))
+    seed[qk[0]] = Q
+    for x in F.walk():
+        if x.get("k") == "VarDecl" and x.get("c") and "&" in (x.get("t") or "") and astq.is_ref_to(sc(x["c"][0]), qk[0]):
+            seed[x["r"]] = Q
+    Hdef = {}
+    for g, c in sites:
+        system = system_of(g)
+        if system is None:
+            rep.unknown(rule, "accept test at %s is not under a coordinate-system test" % F.nloc(g))
+            continue
+        stores = [x for x in F.walk(g["c"][1]) if x.get("k") in ("BinaryOperator", "CXXOperatorCallExpr") and x.get("op") == "="
+                  and sc(x["c"][-2]).get("k") == "MemberExpr" and sc(x["c"][-2]).get("n") == "point"]
+        if len(stores) != 1:
+            rep.unknown(rule, "%s accept site: %d stores to the result point" % (system, len(stores)))
+            continue
+        try:
+            pt = env_before(P, F, stores[0], seed=seed).ev(stores[0]["c"][-1])
+            Hacc = env_before(P, F, g, seed=seed).ev(c["c"][0])
+        except AnalysisBroken as e:
+            rep.unknown(rule, "%s accept site: %s" % (system, e))
+            continue
+        if not (isinstance(pt, tuple) and len(pt) == 2):
+            rep.unknown(rule, "%s accept site: reported point has no component form" % system)
+            continue
+        H = definition(system, pt, Q)
+        Hdef[system] = Hacc       # the steps and the line search are judged against the value that is accepted
+        ok, why = _numeric_zero(Hacc - H)
+        inst = "%s: accepted value `%s`" % (system, norm.render(P, c["c"][0])[:60])
+        if ok:
+            rep.ok(rule, inst + " is the %s between the reported point and the check point (%s)" % (
+                "squared distance" if system == "cartesian" else "haversine", why), F.nloc(g), F.qn)
+        else:
+            rep.violation(rule, inst + " is not the %s between the reported point and the check point" % (
+                "squared distance" if system == "cartesian" else "haversine of the great-circle distance"), F.nloc(g), F.qn,
+                str(Hacc)[:200], "the candidate that wins the comparison is not the curve point nearest to the check point (%s)" % why,
+                key="%s|%s|accept" % (rule, system),
+                witness="an oblique trench at latitude 60: the reported closest point is several per cent farther away than the nearest curve point"
+                if system == "spherical" else "a point off a curved trench")
+    # Newton steps: update = clamp(num / den)
+    nsteps = 0
+    for x in F.walk():
+        if not (x.get("k") == "CallExpr" and P.d(x.get("callee")).get("qn") == "std::min"):
+            continue
+        mx = [y for y in F.walk(x) if y.get("k") == "CallExpr" and P.d(y.get("callee")).get("qn") == "std::max"]
+        if not mx:
+            continue
+        div = [y for y in F.walk(mx[0]) if y.get("k") == "BinaryOperator" and y.get("op") == "/"]
+        if not div:
+            continue
+        system = system_of(x)
+        if system not in Hdef:
+            continue
+        nsteps += 1
+        stmt = x
+        for a in F.ancestors(x):
+            if F.parent.get(a["i"]) is not None and F.parent[a["i"]].get("k") == "CompoundStmt":
+                stmt = a
+                break
+        if F.parent.get(x["i"]) is not None and F.parent[x["i"]].get("k") == "CompoundStmt":
+            stmt = x
+        try:
+            ve = env_before(P, F, stmt, seed=seed)
+            num, den = ve.ev(div[0]["c"][0]), ve.ev(div[0]["c"][1])
+        except AnalysisBroken as e:
+            rep.unknown(rule, "%s Newton step: %s" % (system, e))
+            continue
+        if not (getattr(num, "has", None) and num.has(t)):
+            nsteps -= 1       # the start estimate (a clamped projection), not a Newton step
+            continue
+        H = Hdef[system]
+        d1, d2 = sp.diff(H, t), sp.diff(H, t, 2)
+        ok1, why1 = _numeric_zero(num - d1)
+        ok2, why2 = _numeric_zero(den - sp.Abs(d2))
+        if not ok2:
+            ok2b, _ = _numeric_zero(den ** 2 - d2 ** 2)
+            ok2 = ok2b and den.func == sp.Abs
+        if ok1 and ok2:
+            rep.ok(rule, "%s: Newton step is H'/|H''| of that H (%s)" % (system, why1), F.nloc(x), F.qn)
+        else:
+            rep.violation(rule, "%s: Newton step %s is not H'/|H''| of the accepted H (%s)" % (
+                system, norm.render(P, div[0])[:70], "numerator: " + why1 if not ok1 else "denominator: " + why2), F.nloc(x), F.qn, norm.render(P, div[0])[:160],
+                "the iteration converges to a stationary point of a different function than the one compared at the end",
+                key="%s|%s|step" % (rule, system), witness="a point off a curved trench")
+    rep.floor(rule, nsteps, 2, "Newton steps")
+    # line search: every comparison operand that is an objective value
+    nls = 0
+    for system, H in Hdef.items():
+        seen = set()
+        for x in F.walk():
+            if x.get("k") not in ("VarDecl", "BinaryOperator") or system_of(x) != system:
+                continue
+            if x.get("k") == "VarDecl":
+                if not x.get("c"):
+                    continue
+                rhs, st, key = x["c"][0], F.parent.get(x["i"]), x["r"]
+            else:
+                if x.get("op") != "=" or sc(x["c"][0]).get("k") != "DeclRefExpr":
+                    continue
+                rhs, st, key = x["c"][1], x, sc(x["c"][0])["r"]
+            txt = norm.render(P, rhs)
+            # an objective evaluation squares the two offsets: sin(.)*sin(.) twice, or two squared differences
+            r0 = sc(rhs)
+            if r0.get("k") != "BinaryOperator" or r0.get("op") != "+" or astq.enclosing(F, x, ("ForStmt",)) is None:
+                continue
+            try:
+                val = env_before(P, F, st, seed=seed).ev(rhs)
+            except AnalysisBroken:
+                continue
+            if isinstance(val, tuple) or not val.has(t):
+                continue
+            # same shape as H: a sum of two squares in the offsets -- decided by degree of homogeneity is too fragile; compare directly and
+            # report only values that flow into a comparison with another objective value
+            ok, why = _numeric_zero(val - H)
+            if ok:
+                seen.add(key)
+                nls += 1
+                rep.ok(rule, "%s: `%s = %s` evaluates H" % (system, P.d(key).get("n"), txt[:50]), F.nloc(x), F.qn)
+            else:
+                cmp_with_obj = False
+                for y in F.walk():
+                    if y.get("k") == "IfStmt":
+                        if any(z.get("k") == "DeclRefExpr" and z.get("r") == key for z in F.walk(y["c"][0])):
+                            cmp_with_obj = True
+                if cmp_with_obj and _looks_like_objective(val, t):
+                    nls += 1
+                    rep.violation(rule, "%s: `%s = %s` is compared as an objective value but is not H (%s)" % (system, P.d(key).get("n"), txt[:50], why),
+                                  F.nloc(x), F.qn, txt[:160], "the line search compares values of a different function",
+                                  key="%s|%s|linesearch|%s" % (rule, system, P.d(key).get("n")), witness="a point far from a strongly curved trench")
+    rep.floor(rule, nls, 4, "objective evaluations in the Newton loops")
+
+
+def _looks_like_objective(val, t):
+    """a sum whose terms are squares/products of offsets -- no derivative coefficient pattern: H-like values are even-degree forms"""
+    return val.is_Add and len(val.args) == 2 and all(a.is_Pow or a.is_Mul for a in val.args)
